@@ -128,6 +128,10 @@ def corpus(v, lvl):
     allbase = sorted({d for vv in VERSIONS for d in libs()[vv].BASE_DATATYPES})
     for dt in allbase:
         add('Component-%s-add_subcomponent' % dt, lambda dt=dt: (lambda x: x.add_subcomponent(dt).name)(Component(datatype=dt, version=v, validation_level=lvl)))
+        add('base-field-2-components-%s' % dt, lambda dt=dt: (lambda f: (f.to_er7(ec), f.datatype, [c.datatype for c in f.children]))(
+            parse_field('p^q', name='ZZZ_1', version=v, encoding_chars=ec, validation_level=lvl, reference=('leaf', None, dt, None, None, -1))))
+        add('base-field-value-%s' % dt, lambda dt=dt: (lambda f: (f.to_er7(ec), f.datatype))(
+            parse_field(LEAF_CLASSES.get(dt, ['x'])[0], name='ZZZ_1', version=v, encoding_chars=ec, validation_level=lvl, reference=('leaf', None, dt, None, None, -1))))
         add('SubComponent-dt-%s' % dt, lambda dt=dt: SubComponent(datatype=dt, value=(LEAF_CLASSES.get(dt, ['x'])[0]), version=v, validation_level=lvl).to_er7(ec))
     for dt in sorted(libs()[v].BASE_DATATYPES):
         for ci, val in enumerate(LEAF_CLASSES.get(dt, ['x', 'x', 'y' * 250, 'y' * 250])):
